@@ -151,9 +151,9 @@ AbsListing(d, id) == LET l == Listing(d, id) IN [i \in 1..Len(l) |-> AbsEntry(d,
 AbsTree(d) == [id \in GoodDirIds(d) |-> AbsListing(d, id)]
 
 \* ------------------------------------------------------------------ ownership
-LiveEntries(d) ==  \* all live file/dir slots of all reachable directories (without dot entries)
+LiveEntries(d) ==  \* all live file/dir slots of all reachable directories (without the dot directories; a *file* named "." is a file)
   UNION {{[dir |-> id, b |-> e.b, i |-> e.i, sl |-> e.sl] :
-            e \in {x \in ToSet(Listing(d, id)) : x.sl.k \in {"file", "dir"} /\ ~IsDots(x.sl.n)}} : id \in GoodDirIds(d)}
+            e \in {x \in ToSet(Listing(d, id)) : x.sl.k \in {"file", "dir"} /\ ~(x.sl.k = "dir" /\ IsDots(x.sl.n))}} : id \in GoodDirIds(d)}
 ChainSet(d, c) == IF c = 0 THEN {} ELSE ToSet(Chain(d, c).cl)
 Owned(d) == ToSet(RootChain(d).cl) \cup UNION {ChainSet(d, e.sl.c) : e \in LiveEntries(d)}
 Orphans(d) == InUse(d) \ Owned(d)
